@@ -52,7 +52,7 @@ PROPS = {
         vx_units=['vfs', 'vfsmount'], kx=[], rx=['vfs'],
         design_ref='DESIGN.md section 5, C07',
         not_covered=[
-            'mount / over-mount / umount / index allocation histories (Vfs::mount*, insert_mount_locked, umount, allocate_fs_idx): ArcSwap stores and atomics on &self; routing is proved for an ARBITRARY table state satisfying Vfs::wf()',
+            'over operation HISTORIES the mount table is covered step-wise: routing (unit vfs) is proved for an arbitrary table satisfying Vfs::wf(), and every table operation (allocate_fs_idx, insert_mount_locked, mount_with_id_mapping, umount; unit vfsmount, rule R25) is proved to preserve it and to change exactly the slot it names; interleavings of mount operations with requests (ArcSwap readers during a mount) are not covered',
             'Vfs::readdir / readdirplus: the four entry-rewriting closures are verified after closure lifting (R17); that the backend calls them for its entries, and PseudoFs::do_readdir itself, are not covered',
             'that result-less forget reaches the backend at least once (capabilities can forbid calls, not demand them)',
         ],
@@ -63,7 +63,7 @@ PROPS = {
         vx_units=['vfs', 'vfsmount'], kx=[], rx=['vfs'],
         design_ref='DESIGN.md section 5, C14',
         not_covered=[
-            'slot hygiene across mount / over-mount / umount histories (mount_with_id_mapping, insert_mount_locked, umount store through ArcSwap on &self): the clause "regardless of which mounts previously occupied its slot" is NOT decided (DESIGN.md section 7, D6)',
+            'slot hygiene across mount / over-mount / umount is decided per operation (unit vfsmount: [C14.mount.mapping] found D6); concurrent requests DURING a mount operation (they may see the new mapping before the new mount: the order of the two stores) are not covered',
             'the order of the two stores in mount_with_id_mapping (mapping before insertion)',
         ],
         trusted=['T3 as for C07', 'T8 every configured mapping satisfies internal+range <= 2^32 and external+range <= 2^32 (map_ok; Vfs::new never validates it - DESIGN.md section 7, O2)'],
@@ -74,7 +74,7 @@ PROPS = {
         not_covered=[
             'memory safety of the unsafe blocks below the transport seam (get_message_body::set_len, Reader::read_obj, FuseDevWriter raw Vecs, virtio copy_nonoverlapping) and descriptor-chain construction',
             '"every well-formed request due an answer gets exactly one" is stated on results, because handlers consume their context by value: [C01.<op>.replied] (Ok(n) only with n >= 16, and the reply helpers return Ok(n) only after exactly one complete message of n bytes was emitted) and [C01.<op>.answered] (a complete request fails only with EncodeMessage, i.e. writing its reply failed); outside these clauses: DESTROY (handler returns nothing), IOCTL (its Reader::read model may fail for any reason), requests with a missing NUL / short body (the "explicit EINVAL reply then Err" paths are only held to at-most-one and to the reply bytes), READ / READDIR[PLUS] on a reply buffer smaller than a header',
-            'that the concrete FuseDevWriter / VirtioFsWriter refine the abstract Writer (assume-guarantee seam, DESIGN 3.4d)',
+            'that VirtioFsWriter refines the abstract Writer the handlers are verified against (FuseDevWriter does: unit fusedevw, C01.refine.*); for virtio-fs "one reply" is the used-ring entry the caller adds after handle_message, outside this crate',
         ],
         trusted=['T3 prelude models (ByteValued as byte function with decode(encode(x)) == x, io::Error, slices/CStr, bitflags, ArcSwap)',
                  'T4 abstract Reader/Writer contracts (prelude/transport.rs), written from src/transport/fusedev/mod.rs; write(2) on /dev/fuse is all-or-nothing; reply buffers are at most MAX_BUFFER_SIZE + BUFFER_HEADER_SIZE',
@@ -236,7 +236,7 @@ PROPS = {
         design_ref='DESIGN.md A.4',
         not_covered=[
             'which error reply (or none) a MALFORMED request gets: the specification allows any well-formed error reply there, so two different ones would both verify (by reading, the two paths are identical)',
-            'that a reply IS sent / the operation IS invoked (contracts forbid, they cannot demand) and the return value of the handlers',
+            'that the operation IS invoked (capabilities forbid calls, they cannot demand one); that a reply is sent is covered as on the sync side, on results ([C20.<op>.replied] / [C20.<op>.answered], same clauses as C01)',
             'interleavings with other tasks, cancellation at an await point, Send and lifetime obligations of the futures (rule R18 drops `async` and `.await`)',
             'bytes moved through AsyncZcWriter / AsyncZcReader; VirtioFsWriter async entry points (forward to sync, by reading); FuseDevWriter::async_write* bodies (closures capturing &mut self)',
             'non-forwarding bodies of the Arc<FS> AsyncFileSystem impl are undecided (exit 2); async results cannot carry the passthrough backing id (Vfs async_open / async_create are specified as the sync result minus that component); AsyncFileSystem impls of PassthroughFs / OverlayFs',
